@@ -1104,9 +1104,15 @@ class TwoDSpectrumBase(DataSaveable):
         else:
             res1 = _resolution2number(resolution)
             res2 = _resolution2number(self.storage_resolution)
-            if res1 <= res2:
+            if res1 == res2:
             
                 pass
+            
+            elif res1 < res2:
+                raise Exception("Data with resolution = "+resolution
+                                +" cannot be added to a TwoDSpectrum with "
+                                +"storage resolution = "
+                                +self.storage_resolution)
             
             else:
                 raise Exception("This TwoDSpectrum does not have enough "
